@@ -122,6 +122,28 @@ add(
     "Pool processes surviving stop() until interpreter exit are reported, not judged.",
 )
 
+add(
+    "C09",
+    "property-based testing (Hypothesis) with a scripted plug-in engine and scripted random streams against an exact reference outcome; boundary-targeted draws",
+    "shoot / wire_fencing / retis_swap_zero are called directly (and through run_md) with engine trajectories and random draws that are the "
+    "generated input (half-integer grid, so interface values and exact length limits are hit; the length draw is placed at n_old/n_new, "
+    "n_old/(n_new+-1) and their float neighbours). Shooting is compared with an exact reference (accept/reject and order sequence, rational "
+    "arithmetic for the threshold); wire fencing and swaps with the ensemble-membership predicate, weight>0, trajectory-piece adjacency and "
+    "frame-reference integrity; every rejection must leave the old path object, its frames and its files unchanged and run_md must keep it. Sampled.",
+    "Old paths have interior frames strictly inside the interfaces; a value exactly on an interface counts as outside for an end point and inside "
+    "for an interior frame; at a float-rounding tie of n_old/xi either rounding is accepted; wire-fencing trajectories cannot jump over [lambda_i, cap).",
+)
+add(
+    "C11",
+    "property-based testing (Hypothesis) with scripted and exactly reversible (billiard) plug-in engines; metamorphic swap-twice relation; boundary-targeted draws",
+    "retis_swap_zero / quantis_swap_zero on generated valid [0-]/[0+] pairs (lambda_-1 variant, wf in [0+], binding length limits): junction "
+    "frames identical in order and configuration content, new paths = reversed backward trajectory + junction / junction + forward "
+    "trajectory, membership in both ensembles, old paths untouched, roomy swaps accepted, [0-] ending left rejected without any propagate call; "
+    "swap o swap restores both order sequences exactly under integer billiard dynamics; QuanTIS with two engines of different potential and "
+    "beta: statuses QNE/QLL/QS0/QS1/QEA exactly under their conditions, acceptance iff u <= min(1, exp(b0 dV0 - b1 dV1)) probed at pacc and its float neighbours. Sampled.",
+    "One-step landings exactly on lambda_0 are not judged (QuanTIS crossing condition). TurtleMD variant (tolerance 1e-5) not built; reversibility is exact on the billiard engine.",
+)
+
 NOT_YET = "check not built yet in this session (design exists in DESIGN.md §4); will be claimed once its check is registered"
 
 
